@@ -2223,6 +2223,14 @@ class Sim:
         os.environ.update(BASE_ENV)
         os.environ.update(op.get("env", {}))
         os.chdir(self.root / inv.cwd)
+        if op.get("via_symlink"):
+            # the user came here through a symbolic link to the project (cd ~/plink/pkg): the working directory is
+            # the same directory, the shell's $PWD holds the logical path (seeded change C17g-1: root searched from $PWD)
+            link = self.root.parent / "plink"
+            if not link.is_symlink():
+                os.symlink(self.root.name, link)
+            os.environ["PWD"] = os.path.normpath(str(link / inv.cwd))
+            self.count("env.cwd_entered_through_symlink")
         sys.argv = ["cond"] + inv.argv
         own = op.get("own_stdout") or {}
         # own stdout: a terminal (line buffered) or a pipe (block buffered, as CPython does it); the reader of
